@@ -73,8 +73,9 @@ Inductive event :=
 | EFdFail (id : nat)
 | EConnect (code : Z)                     (* uv_tcp_connect / uv_pipe_connect called again on the handle, and what it returned *)
 | EReopen                                 (* that call set UV_HANDLE_WRITABLE on a stream where it was clear (ghost) *)
-| EOrphan (ids : list nat).               (* that connect was started while these finished requests awaited their
+| EOrphan (ids : list nat)                (* that connect was started while these finished requests awaited their
                                              callback in write_completed_queue (ghost) *)
+| EReset (code : Z).                      (* uv_tcp_close_reset called, and what it returned *)
 (* EFdFail: a sendmsg carrying SCM_RIGHTS failed (EAGAIN or error);
    EQ: uv_stream_get_write_queue_size after a top-level step *)
 
@@ -303,7 +304,8 @@ Inductive op :=
 | OWriteNomem (bufs : list N)   (* uv_write during which uv__malloc fails *)
 | OWrite2Nomem (bufs : list N)  (* uv_write2 with the send handle during which uv__malloc fails *)
 | OConnect                      (* uv_tcp_connect / uv_pipe_connect again on the same handle *)
-| ORun.                 (* one uv_run(UV_RUN_NOWAIT); ignored inside callbacks *)
+| ORun                  (* one uv_run(UV_RUN_NOWAIT); ignored inside callbacks *)
+| OCloseReset.          (* uv_tcp_close_reset (TCP scripts only) *)
 
 Definition check_before_write (s : st) : option Z :=
   if negb (fdopen s) then Some UV_EBADF
@@ -451,6 +453,18 @@ Definition api_connect (s : st) : st :=
         orphan (ev (EConnect 0%Z) (set_armed true (set_derr 0%Z (set_connecting true s1))))
       else orphan (ev (EConnect 0%Z) (set_fed true (set_derr (conn_derr cres) (set_connecting true s)))).
 
+(* uv_tcp_close_reset (src/unix/tcp.c): refused with UV_EINVAL while a uv_shutdown request is pending
+   (uv__is_stream_shutting) - before anything is touched, so a refused call changes nothing: SO_LINGER
+   stays off and a later uv_close ends the stream in order (every accepted byte, then end-of-stream).
+   Otherwise SO_LINGER {1,0} and uv_close: the stream part is api_close (pending requests complete once with
+   UV_ECANCELED); the peer sees a reset, which may cut its byte stream short (the correspondence does not
+   compare the peer's count / EOF after an accepted reset).  Not modelled (no-op, the harness skips the
+   call): a handle that is closing already. *)
+Definition api_close_reset (s : st) : st :=
+  if closing s then s
+  else if shutreq s then ev (EReset UV_EINVAL) s
+  else api_close (ev (EReset 0%Z) s).
+
 Definition api (s : st) (o : op) : st :=
   match o with
   | OWrite bufs => api_write s bufs
@@ -463,6 +477,7 @@ Definition api (s : st) (o : op) : st :=
   | OWrite2Nomem bufs => api_write2_nomem s bufs
   | OConnect => api_connect s
   | ORun => s
+  | OCloseReset => api_close_reset s
   end.
 
 Fixpoint apis (s : st) (os : list op) : st :=
